@@ -137,6 +137,28 @@ Fixpoint set_field (n : nat) (v : ival) (l : list (nat * ival)) : list (nat * iv
 
 Definition hashable_struct := TPrim PHashableStruct.
 
+(* ArrayValue.Transfer: an array whose static element type is one of the fixed-size simple types
+   (canCopyNonRefSimpleForType) is copied with atree's CopyNonRefSimple, which fails with a CopyError
+   ("can't copy container") if an element is a container; the error is raised as errors.ExternalError.
+   A value is transferred when it is stored into an array, dictionary or composite field. *)
+Definition simple_copy_prim (p : prim) : bool :=
+  existsb (prim_beq p)
+    [PBool; PAddress; PCharacter;
+     PInt8; PInt16; PInt32; PInt64; PInt128; PInt256;
+     PUInt8; PUInt16; PUInt32; PUInt64; PUInt128; PUInt256;
+     PWord8; PWord16; PWord32; PWord64; PWord128; PWord256;
+     PFix64; PFix128; PUFix64; PUFix128].
+
+Definition is_container (v : ival) : bool :=
+  match v with IArray _ _ _ | IDict _ _ _ | IComp _ _ _ => true | _ => false end.
+
+Fixpoint copy_fails (v : ival) : bool :=
+  match v with
+  | ISome x => copy_fails x
+  | IArray _ (TPrim p) es => simple_copy_prim p && existsb is_container es
+  | _ => false
+  end.
+
 (* valueImporter.importValue(value, expectedType); expectedType may be nil *)
 Fixpoint import (x : xval) (exp : option ty) {struct x} : res ival :=
   match x with
@@ -164,15 +186,18 @@ Fixpoint import (x : xval) (exp : option ty) {struct x} : res ival :=
                     | [] => Ok []
                     | y :: r => let* v := import y elem in let* vs := go r in Ok (v :: vs)
                     end) l in
-      match exp with
-      | Some (TVar e) => Ok (IArray None e vs)
-      | Some (TConst e n) => Ok (IArray (Some n) e vs)
-      | _ =>
-          match lcs (map dyn_type vs) with
-          | None => Err Internal                      (* errors.NewUnexpectedError("cannot import array ...") *)
-          | Some u => Ok (IArray None u vs)
-          end
-      end
+      let* ty := match exp with
+                 | Some (TVar e) => Ok (None, e)
+                 | Some (TConst e n) => Ok (Some n, e)
+                 | _ =>
+                     match lcs (map dyn_type vs) with
+                     | None => Err Internal           (* errors.NewUnexpectedError("cannot import array ...") *)
+                     | Some u => Ok (None, u)
+                     end
+                 end in
+      (* NewArrayValue transfers the elements *)
+      if existsb copy_fails vs then Err HostFail
+      else Ok (IArray (fst ty) (snd ty) vs)
   | XDict l =>
       let kt := match exp with Some (TDict k _) => Some k | _ => None end in
       let wt := match exp with Some (TDict _ w) => Some w | _ => None end in
@@ -189,9 +214,15 @@ Fixpoint import (x : xval) (exp : option ty) {struct x} : res ival :=
           (* NewDictionaryValue inserts the pairs one by one; DictionaryValue.Insert checks key and value
              with checkContainerMutation (interpreter.IsSubType) and raises ContainerMutationError, a user
              error that importValidatedArguments catches with UserPanicToError *)
-          if forallb (fun kv => is_sub_static D (dyn_type (fst kv)) k && is_sub_static D (dyn_type (snd kv)) w) kvs
-          then Ok (IDict k w kvs)
-          else Err UserOther
+          (fix ins (l : list (ival * ival)) : res ival :=
+             match l with
+             | [] => Ok (IDict k w kvs)
+             | kv :: r =>
+                 if negb (is_sub_static D (dyn_type (fst kv)) k && is_sub_static D (dyn_type (snd kv)) w)
+                 then Err UserOther
+                 else if copy_fails (fst kv) || copy_fails (snd kv) then Err HostFail
+                 else ins r
+             end) kvs
       | _ =>
           match lcs (map (fun kv => dyn_type (fst kv)) kvs) with
           | None => Err UserOther                     (* keys do not belong to the same type *)
@@ -200,7 +231,9 @@ Fixpoint import (x : xval) (exp : option ty) {struct x} : res ival :=
               else
                 match lcs (map (fun kv => dyn_type (snd kv)) kvs) with
                 | None => Err UserOther               (* values do not belong to the same type *)
-                | Some wu => Ok (IDict ku wu kvs)
+                | Some wu =>
+                    if existsb (fun kv => copy_fails (fst kv) || copy_fails (snd kv)) kvs then Err HostFail
+                    else Ok (IDict ku wu kvs)
                 end
           end
       end
@@ -212,9 +245,11 @@ Fixpoint import (x : xval) (exp : option ty) {struct x} : res ival :=
                           | [] => Ok acc
                           | (n, y) :: r =>
                               let* v := import y (lookup n (comp_fields E c)) in
-                              go r (set_field n v acc)
+                              go r (acc ++ [(n, v)])
                           end) fs [] in
-        Ok (IComp k c fields)
+        (* NewCompositeValue sets (and transfers) the fields in order *)
+        if existsb (fun f => copy_fails (snd f)) fields then Err HostFail
+        else Ok (IComp k c (fold_left (fun acc f => set_field (fst f) (snd f) acc) fields []))
   | XCap b addr id =>
       match b with
       | TRef _ _ => Ok (ICap b addr id)
@@ -266,6 +301,7 @@ Inductive rkind : Type :=
 | RNotImportable     (* ArgumentNotImportableError *)
 | RType              (* InvalidValueTypeError *)
 | RMalformed         (* MalformedValueError *)
+| RCopy              (* a storage-layer (atree) copy error escaped: neither an argument error nor a user error in the VM *)
 | RInternal.         (* an internal (unexpected) error escaped for a user-supplied argument *)
 
 Inductive outcome : Type :=
@@ -278,6 +314,7 @@ Definition validate (T : ty) (x : xval) : outcome :=
   else
     match import x (Some T) with
     | Err Internal => Reject RInternal
+    | Err HostFail => Reject RCopy
     | Err _ => Reject RImport
     | Ok v =>
         if negb (importable v) then Reject RNotImportable
